@@ -51,6 +51,14 @@ pub enum Op {
     /// poll wait_for_data on slot 1 once (through the owner)
     PollWait1,
     DropParent,
+    /// SlotGuard::delay_flush on slot 1's guard with a fresh flush guard of the parent: the
+    /// second public way into wait mode (and the only way to REPLACE a held flush guard)
+    DelayFlush1,
+    /// the deprecated Slot::open_slot (discard mode, same at-most-once rule)
+    OpenDeprecated1,
+    /// owner -> handle (+ k%3 clones): from here on "dropping the parent" means dropping the last
+    /// clone, and nothing can be opened or mutated through the parent any more
+    IntoHandle(u8),
 }
 
 #[derive(Clone, Debug, Serialize, Deserialize)]
@@ -90,6 +98,7 @@ pub fn check(case: &Case) -> CaseResult {
     let mut g1: Option<SlotGuard<Child1>> = None;
     let mut g2: Option<SlotGuard<Child2>> = None;
     let mut force: Vec<ForceFlushGuard> = vec![];
+    let mut handles: Vec<ParentHandle<CountSink>> = vec![];
     let mut m1 = SlotModel::default();
     let mut m2 = SlotModel::default();
     let mut own = 0u64;
@@ -243,6 +252,51 @@ pub fn check(case: &Case) -> CaseResult {
                     }
                 }
             }
+            Op::DelayFlush1 => {
+                if let (Some(p), Some(g)) = (parent.as_ref(), g1.as_mut()) {
+                    g.delay_flush(p.flush_guard());
+                    m1.opened = Some(Mode::Wait);
+                    m1.holds = !force_dropped;
+                    classes.push("delay-flush");
+                }
+            }
+            #[allow(deprecated)]
+            Op::OpenDeprecated1 => {
+                let Some(p) = parent.as_mut() else { continue };
+                let g = p.s1.open_slot();
+                if m1.opened.is_some() {
+                    vensure!(g.is_none(), "slot:opened-twice", "op {i}: Slot::open_slot returned a second guard");
+                    classes.push("second-open");
+                } else {
+                    vensure!(g.is_some(), "slot:open-failed", "op {i}: first Slot::open_slot returned None");
+                    g1 = g;
+                    m1.opened = Some(Mode::Discard);
+                    m1.holds = false;
+                    m1.guard_alive = true;
+                    classes.push("open-slot-deprecated");
+                }
+            }
+            Op::IntoHandle(k) => {
+                if let Some(p) = parent.take() {
+                    let h = p.handle();
+                    for _ in 0..(k % 3) {
+                        handles.push(h.clone());
+                    }
+                    handles.push(h);
+                    classes.push("parent-as-handle-clones");
+                }
+            }
+            Op::DropParent if parent.is_none() && !handles.is_empty() => {
+                let h = handles.pop().unwrap();
+                if handles.is_empty() {
+                    parent_alive = false;
+                }
+                if case.unwinding {
+                    no_panic("parent-drop-while-unwinding", || drop_while_unwinding(h))?;
+                } else {
+                    no_panic("parent-drop", || drop(h))?;
+                }
+            }
             Op::DropParent => {
                 if let Some(p) = parent.take() {
                     parent_alive = false;
@@ -271,7 +325,7 @@ pub fn check(case: &Case) -> CaseResult {
     // wind down
     let was = emitted(parent_alive, force_dropped, &m1, &m2);
     if !was {
-        if case.concurrent && (g1.is_some() || g2.is_some()) && parent.is_some() {
+        if case.concurrent && (g1.is_some() || g2.is_some()) && parent.is_some() && handles.is_empty() {
             // parent and guards dropped on different threads; wait-mode values must be present
             let p = parent.take().unwrap();
             let started = sink.started.clone();
@@ -347,6 +401,13 @@ pub fn check(case: &Case) -> CaseResult {
             let n = emitted(parent_alive, force_dropped, &m1, &m2);
             note_emit(w, n, own, &m1, &m2, &mut expected_at_emit);
         }
+        if !handles.is_empty() {
+            let w = emitted(parent_alive, force_dropped, &m1, &m2);
+            parent_alive = false;
+            handles.clear();
+            let n = emitted(parent_alive, force_dropped, &m1, &m2);
+            note_emit(w, n, own, &m1, &m2, &mut expected_at_emit);
+        }
         if let Some(g) = g1.take() {
             let w = emitted(parent_alive, force_dropped, &m1, &m2);
             m1.guard_alive = false;
@@ -371,6 +432,7 @@ pub fn check(case: &Case) -> CaseResult {
     drop(g1);
     drop(g2);
     drop(force);
+    drop(handles);
     let appended = sink.appended.lock().unwrap().clone();
     vensure!(
         appended.len() == 1,
@@ -471,6 +533,9 @@ pub fn arb_op() -> impl Strategy<Value = Op> {
         1 => Just(Op::DropForceGuard),
         1 => Just(Op::PollWait1),
         2 => Just(Op::DropParent),
+        1 => Just(Op::DelayFlush1),
+        1 => Just(Op::OpenDeprecated1),
+        1 => any::<u8>().prop_map(Op::IntoHandle),
     ]
 }
 
@@ -580,11 +645,11 @@ pub fn run(ctx: &mut Ctx) {
     ctx.explore(
         SubCfg::new(
             "c13-random",
-            "random sequences up to length 40 over the same ops plus wait_for_data polls (no-op waker; tokio's oneshot needs no runtime); model compared after every op; in 20% of the cases every guard / parent drop happens while the dropping thread unwinds from a panic. Non-trivial = parent dropped before a wait-mode guard",
+            "random sequences up to length 40 over the same ops plus wait_for_data polls, SlotGuard::delay_flush, the deprecated Slot::open_slot and the owner turned into handle clones (no-op waker; tokio's oneshot needs no runtime); model compared after every op; in 20% of the cases every guard / parent drop happens while the dropping thread unwinds from a panic. Non-trivial = parent dropped before a wait-mode guard",
             if q { 30_000 } else { 800_000 },
         )
         .threads(ctx.tier.pick(8, 16))
-        .mandatory(&["wait-mode", "discard-mode", "second-open", "force-flush", "parent-dropped-before-wait-guard", "wait-for-data-ready", "guard-dropped-while-unwinding"]),
+        .mandatory(&["wait-mode", "discard-mode", "second-open", "force-flush", "parent-dropped-before-wait-guard", "wait-for-data-ready", "guard-dropped-while-unwinding", "delay-flush", "open-slot-deprecated", "parent-as-handle-clones"]),
         || {
             (prop::collection::vec(arb_op(), 0..40), prop::bool::weighted(0.2)).prop_map(|(ops, unwinding)| Case {
                 ops,
@@ -634,7 +699,7 @@ pub fn run(ctx: &mut Ctx) {
                 prop::collection::vec(any::<u8>(), 0..3),
             )
                 .prop_map(|(mut ops, order, jitter)| {
-                    ops.retain(|o| !matches!(o, Op::DropParent | Op::PollWait1 | Op::DropGuard1 | Op::DropGuard2));
+                    ops.retain(|o| !matches!(o, Op::DropParent | Op::PollWait1 | Op::DropGuard1 | Op::DropGuard2 | Op::IntoHandle(_)));
                     ops.insert(0, Op::Open1(Mode::Wait));
                     Case {
                         ops,
